@@ -13,7 +13,7 @@ P = {
  'C03': ('§7 C03', 'Lean 4 theorems: Lindig neighbors loop = upper covers; heap loop emits exactly the closed sets once (invariant + pigeonhole fuel); tie: correspondence of the concept multiset',
          'heapq modelled as pop-minimum by key; negative-int masks of lindig.neighbors modelled as in-domain masks'),
  'C04': ('§7 C04', 'Lean 4 theorems: Close-by-One from the root emits every closed set exactly once; FCbO pruning equivalence; tie: correspondence of all four generators (multisets)',
-         'explicit stack of the Python code modelled recursively; emission order not part of the property'),
+         'the explicit stack / shared-list machine (Model/FcboStack.lean) is proved to yield the recursive model\'s sequence (C04Stack); inner loop bodies regenerated from fcbo.py (C04Gen); emission order not part of the property'),
  'C05': ('§7 C05', 'Lean 4 theorems: neighbors loop yields exactly the minimal candidate closures = upper covers, lower lists are the converse after exhaustion; tie: correspondence of neighbor sets and Context.neighbors',
          'as C03'),
  'C06': ('§7 C06', 'Lean 4 theorems: emission order strictly increasing in the shortlex key, keys = documented order, index/dindex linear extensions; tie: the model sorts the implementation\'s own extents',
@@ -28,7 +28,7 @@ P = {
          'append-or-create on class-level default modelled as filter'),
  'C11': ('§7 C11', 'Lean 4 theorems: fromStored (ordered and raw, any permutation) of toStored rebuilds the lattice; tie: every carrier reloaded and compared with a recomputed lattice and the model',
          'PARTIAL: json, repr/literal_eval, pickle/copyreg, class registry, recursion limit are runtime, executed not modelled'),
- 'C12': ('§7 C12', 'Lean 4 theorems: loaders invert dumpers for representable labels (table, cxt, csv rows); tie: byte-equality of emitted text with the Lean dumpers, loaders agree, independent strict readers',
+ 'C12': ('§7 C12', 'Lean 4 theorems: loaders invert dumpers for representable labels (table, cxt, csv rows, python-literal incl. CPython repr of str); tie: byte-equality of emitted text with the Lean dumpers, loaders agree, independent strict readers',
          'PARTIAL: codecs, newline translation, csv C module are runtime; csv text model differential-tested'),
  'C13': ('§7 C13', 'Lean 4 theorems: invariant (names duplicate-free, pairs within objs x props) preserved by every mutator hence after every history; fresh-copy equality; tie: bounded-exhaustive + random histories against the model',
          'Python sets modelled as duplicate-free lists; exceptions by class'),
@@ -55,8 +55,11 @@ def main():
         ref, text, note = P[pid]
         props = os.path.join(VERIF, 'lean', 'FCA', 'Props', pid + '.lean')
         ntheorems = 0
-        if os.path.exists(props):
-            ntheorems = len(re.findall(r'^\s*theorem\s+%s_' % pid, open(props).read(), flags=re.M))
+        import glob
+        files = sorted(glob.glob(os.path.join(VERIF, 'lean', 'FCA', 'Props', pid + '*.lean')))
+        for f in files:
+            ntheorems += len(re.findall(r'^\s*theorem\s+%s_' % pid, open(f).read(), flags=re.M))
+        fnames = ', '.join(os.path.basename(f) for f in files)
         proved = ntheorems > 0
         checks.append({
             'property_id': pid,
@@ -68,7 +71,7 @@ def main():
             'level_claimed': {
                 'category': 'proof' if proved else 'exploration',
                 'text': (text if proved else 'theorems not yet committed for this property: ' + text) +
-                        ' (%d theorem(s) %s_* in lean/FCA/Props/%s.lean, axioms audited on every run)' % (ntheorems, pid, pid),
+                        ' (%d theorem(s) %s_* in lean/FCA/Props/{%s}, axioms audited on every run; *Gen files are stated over code regenerated from the current source)' % (ntheorems, pid, fnames),
                 'design_ref': ref,
             },
             'level_note': note + '; trusted base: Lean 4.33 kernel, axioms propext/Classical.choice/Quot.sound only, Mathlib modules, Lean compiler for the driver, harness + extract.py, dependency contracts (bitsets, CPython, graphviz)',
